@@ -97,22 +97,9 @@ def axis_table_clause(model, rep, funcs):
     f = funcs.get(MC + "Molecules.from_axes")
     if f is not None:
         rep.instance("F.axes", f.loc())
-        cyc = {"z": ("x", "y"), "x": ("y", "z"), "y": ("z", "x")}
-        derived = []
-        bad = []
-        for n in walk_no_nested(f.node):
-            if isinstance(n, ast.Assign) and len(n.targets) == 1 and isinstance(n.targets[0], ast.Name) and isinstance(n.value, ast.Call) and \
-                    (dotted(n.value.func) or "").split(".")[-1] == "cross" and len(n.value.args) >= 2:
-                t = n.targets[0].id
-                a0, a1 = norm_src(n.value.args[0]), norm_src(n.value.args[1])
-                derived.append(t)
-                if t not in cyc or (a0, a1) != cyc[t]:
-                    bad.append(f"`{norm_src(n)}`: right-handed axes need {t} = cross({', '.join(cyc.get(t, ('?', '?')))})")
-        M11 = Matcher(f)
-        okr = M11.all_of(["$r = axes_to_rotator(z, y)", "return cls(pos, $r)"])[0]
+        ok, why = _from_axes_semantics(model, f)
         rep.ob("F", f.anchor, "from_axes completes the given pair to a right-handed (z, y, x) frame: the missing axis is the cyclic cross product of the other two",
-               bool(derived) and not bad and okr, "; ".join(bad) or ("" if okr else "the frame is not handed to axes_to_rotator(z, y)"), node=f.node, fn=f,
-               clause="1 axis table", stmt="def from_axes")
+               ok, why, node=f.node, fn=f, clause="1 axis table", stmt="def from_axes")
     for a in (MC + "cross", "acryo/simulator.py::cross"):
         f = funcs.get(a)
         if f is None:
@@ -124,6 +111,78 @@ def axis_table_clause(model, rep, funcs):
             [norm_src(x) for x in rets[0].value.operand.args[:2]] == [p for p in f.param_names()[:2]]
         rep.ob("F", a, "cross product in z,y,x storage order is -np.cross(x, y) (right-handed: x cross y = z)", ok, norm_src(rets[0].value) if rets else "",
                node=f.node, fn=f, clause="1 axis table", stmt=f"def cross ({f.module.relpath})")
+
+
+def _from_axes_semantics(model, f):
+    """Evaluate from_axes on symbolic terms once per missing axis: the (z, y) pair handed to axes_to_rotator must be (z, y) as given, or the cyclic cross
+    product of the two given axes (x cross y = z, z cross x = y), and the object is built from pos and that rotator - however the cases are spelled."""
+    from ..absint import Const, Interp
+    from ..domains.terms import T, TermDomain, callee_name, strip
+
+    def core(t):
+        # value-preserving shape wrappers
+        while True:
+            t = strip(t, ext_wrappers=("asarray", "atleast_2d", "atleast_1d", "array"))
+            return t
+
+    def is_param(t, nm):
+        t = core(t)
+        return isinstance(t, T) and t.op == "param" and t.args[0] == nm
+
+    def is_cross(t, a, b):
+        t = core(t)
+        if not (isinstance(t, T) and t.op == "call"):
+            return False
+        c = t.args[0]
+        nm = callee_name(t) or (str(c.args[0]).rsplit(".", 1)[-1] if isinstance(c, T) and c.op in ("opaque", "ext") else None)
+        if nm != "cross" or len(t.args[1]) < 2:
+            return False
+        return is_param(t.args[1][0], a) and is_param(t.args[1][1], b)
+
+    want = {"z": (lambda t: is_cross(t, "x", "y"), lambda t: is_param(t, "y")),
+            "y": (lambda t: is_param(t, "z"), lambda t: is_cross(t, "z", "x")),
+            "x": (lambda t: is_param(t, "z"), lambda t: is_param(t, "y"))}
+    for missing, (wz, wy) in want.items():
+        dom = TermDomain(summarise=("cross", "axes_to_rotator"))
+        it = Interp(model, dom, depth=0)
+        rot_calls, built = [], []
+
+        def on_call(interp, fn, node, callee, args, kwargs, env, rot_calls=rot_calls, built=built):
+            if fn is not f:
+                return
+            nm = (dotted(node.func) or "").rsplit(".", 1)[-1]
+            if nm == "axes_to_rotator":
+                rot_calls.append((node, list(args), dict(kwargs)))
+            elif isinstance(node.func, ast.Name) and node.func.id == f.param_names()[0]:
+                built.append((node, list(args), dict(kwargs)))
+
+        it.on_call.append(on_call)
+        args = {p: T("param", (p,)) for p in f.param_names()[1:]}
+        args[missing] = Const(None)
+        try:
+            it.run(f, args=args)
+        except Exception as e:  # pragma: no cover
+            return None, f"from_axes could not be evaluated ({e!r})"
+        if not rot_calls:
+            return False, f"{missing} missing: the frame is not handed to axes_to_rotator"
+        for node, a, kw in rot_calls:
+            zt = a[0] if len(a) > 0 else kw.get("z")
+            yt = a[1] if len(a) > 1 else kw.get("y")
+            if zt is None or yt is None or not wz(zt) or not wy(yt):
+                need = {"z": "z = cross(x, y)", "y": "y = cross(z, x)", "x": "(z, y) as given"}[missing]
+                return False, f"`{norm_src(node)}` with {missing} missing: axes_to_rotator receives ({zt!r}, {yt!r}); a right-handed frame needs {need}"
+        if not built:
+            return False, "no Molecules object is built from the rotator"
+        for node, a, kw in built:
+            r = a[1] if len(a) > 1 else kw.get("rot")
+            r = core(r) if r is not None else None
+            if not (isinstance(r, T) and r.op == "call" and callee_name(r) in ("axes_to_rotator",) or
+                    (isinstance(r, T) and r.op == "call" and "axes_to_rotator" in repr(r.args[0]))):
+                return False, f"`{norm_src(node)}`: the object is not built from the axes_to_rotator result"
+            p0 = a[0] if a else kw.get("pos")
+            if not is_param(p0, "pos"):
+                return False, f"`{norm_src(node)}`: the object is not built from pos"
+    return True, ""
 
 
 def src_differs(b) -> bool:
